@@ -1,1 +1,86 @@
-def main : IO Unit := IO.println "driver C10: not built yet"
+import VncModel.Basic.Proto
+import VncModel.Translate.Model
+/-! Line-protocol driver for the pixel-translation model (C10). Same script as harness/c10.c. -/
+open VncModel VncModel.Translate VncModel.Proto
+
+structure DState where
+  srv : PixelFormat := default
+  cli : PixelFormat := default
+  econ : Bool := false
+  cm : ColourMap := ⟨false, 0, fun _ => 0⟩
+  /-- result of the last successful `set` (cleared by any configuration change) -/
+  cur : Option SetResult := none
+
+def defaultFmt : PixelFormat :=
+  { bpp := 32, depth := 24, bigEndian := hostBE, trueColour := true, redMax := 255, greenMax := 255,
+    blueMax := 255, redShift := 0, greenShift := 8, blueShift := 16 }
+
+def parseFmt (ts : List String) : Option PixelFormat :=
+  match ts.map String.toNat? with
+  | [some a, some b, some c, some d, some e, some f, some g, some h, some i, some j] =>
+    if a > 255 || b > 255 || c > 1 || d > 1 || e > 65535 || f > 65535 || g > 65535 || h > 255 ||
+       i > 255 || j > 255 then none
+    else some { bpp := a, depth := b, bigEndian := c == 1, trueColour := d == 1, redMax := e,
+                greenMax := f, blueMax := g, redShift := h, greenShift := i, blueShift := j }
+  | _ => none
+
+def b2n (b : Bool) : Nat := if b then 1 else 0
+
+def showFmt (f : PixelFormat) : String :=
+  s!" fmt={f.bpp},{f.depth},{b2n f.bigEndian},{b2n f.trueColour},{f.redMax},{f.greenMax},{f.blueMax},{f.redShift},{f.greenShift},{f.blueShift}"
+
+def hexNat (bs : List Nat) : String := hex (bs.map UInt8.ofNat)
+
+def doSet (s : DState) : DState × List String :=
+  let r := setTranslate s.econ s.srv s.cli
+  match r.strat with
+  | .reject => ({ s with cur := none }, ["reject"])
+  | st =>
+    let head := if st == .none then "none" else s!"table={tableBytes st s.srv r.fmt}"
+    let tail := if r.sentCMap then " bgr233=" ++ hexNat bgr233Message else ""
+    ({ s with cur := some r }, [head ++ showFmt r.fmt ++ tail])
+
+/-- pairs of a 16-bit colour-map file are big-endian in the script -/
+def pairUp : List Nat → List Nat
+  | a :: b :: rest => (a * 256 + b) :: pairUp rest
+  | _ => []
+
+def dstep (s : DState) (toks : List String) : DState × List String :=
+  match toks with
+  | ["host"] => (s, [s!"le={b2n Gen.C10.rfbEndianTestLE}"])
+  | "fmt" :: which :: rest =>
+    match parseFmt rest with
+    | some f =>
+      if which = "server" then ({ s with srv := f, cur := none }, ["ok"])
+      else if which = "client" then ({ s with cli := f, cur := none }, ["ok"])
+      else (s, ["bad-op"])
+    | none => (s, ["bad-op"])
+  | ["cmap", is16, cnt, hx] =>
+    match is16.toNat?, cnt.toNat?, unhex? hx with
+    | some i, some c, some bytes =>
+      if i > 1 || c > 65536 || bytes.length != c * 3 * (if i == 1 then 2 else 1) then (s, ["bad-op"])
+      else
+        let raw := bytes.map UInt8.toNat
+        let vals := (if i == 1 then pairUp raw else raw).toArray
+        ({ s with cm := ⟨i == 1, c, fun k => vals.getD k 0⟩, cur := none }, ["ok"])
+    | _, _, _ => (s, ["bad-op"])
+  | ["econ", e] =>
+    match e.toNat? with
+    | some e => ({ s with econ := e != 0, cur := none }, ["ok"])
+    | none => (s, ["bad-op"])
+  | ["slack", _] => (s, ["ok"])
+  | ["set"] => doSet s
+  | ["setmsg"] => doSet s
+  | ["px", hx, w, h, stride] =>
+    match s.cur, unhex? hx, w.toNat?, h.toNat?, stride.toNat? with
+    | some r, some bytes, some w, some h, some stride =>
+      if w > 1000000 || h > 1000000 || w * h > 1000000 then (s, ["bad-op"]) else
+      if bytes.length < srcNeeded r.strat s.srv r.fmt stride w h then (s, ["bad-op"]) else
+      if r.strat == .rgb && r.fmt.bpp == 24 then (s, ["unmodelled"]) else
+      let arr := (bytes.map UInt8.toNat).toArray
+      let out := translateArea hostBE r.strat s.srv r.fmt s.cm (fun k => arr.getD k 0) stride w h
+      (s, [hexNat out ++ " canary=ok"])
+    | _, _, _, _, _ => (s, ["bad-op"])
+  | _ => (s, ["bad-op"])
+
+def main : IO Unit := runDriver ({ srv := defaultFmt, cli := defaultFmt } : DState) dstep
